@@ -238,6 +238,9 @@ func FindInsertionPoints(
 			// if the root value is a list
 			if rootList, ok := rootValue.([]interface{}); ok {
 				for i := range oldBranch {
+					if i >= len(rootList) {
+						return nil, fmt.Errorf("root value of result chunk is a list without an entry for the insertion point. Point: %v Value: %v", point, rootValue)
+					}
 					entry, ok := rootList[i].(map[string]interface{})
 					if !ok {
 						return nil, errors.New("item in root list isn't a map")
